@@ -8,6 +8,9 @@
 //                  nbsimu x seeds x nvar: at every target coinciding with a datum the simulated value of EVERY rank
 //                  equals the datum; the run repeated in the same process is bit-identical; ranks differ; a different
 //                  (non-congruent) seed gives a different result.
+//   simtub_hetero  (E1) conditional multivariate turning bands, EVERY heterotopy pattern of the data (each (sample, variable) defined or
+//                  not) x nvar 2-3 x model without / with nugget x grid / point targets x unique / moving x nbsimu: every defined value is
+//                  reproduced at the coinciding target for every rank.
 //   repro          (E1+E3) every simulator (simtub NC/cond, simbayes, simfft, gibbs_sampler, simpgs NC/cond, simulateSPDE NC/cond,
 //                  simuSpectral, Cholesky draw z = L u) x seed menu
 //                  (incl. the collision inputs around the modulus) x nbsimu: run twice + once in a fresh child:
@@ -359,6 +362,132 @@ VF_PART(simtub_cond)
     if (id % 997 == 0) C.sample("{\"id\":" + kase + ",\"axes\":" + sp.describe(ix) + ",\"coinciding_targets\":" + std::to_string(ncoin) + ",\"mismatches\":" + std::to_string(nbad) + "}");
     delete model; delete neigh;
   });
+}
+
+// =========================================================================================================
+// simtub_hetero (E1): conditional MULTIVARIATE turning bands with heterotopic data.  Every heterotopy pattern is enumerated:
+// for n = 3 (quick: also n = 4 with 2 variables; thorough: n = 4 with 3 variables) samples and nvar in {2,3}, each
+// (sample, variable) value is independently defined or undefined (2^(n*nvar) patterns), crossed with models without / with a
+// nugget component on every variable (with a nugget the conditioning kriging alone does not return the datum: the nugget
+// part of the non-conditional field exists on the target only, so the final copy of the data onto coinciding targets in
+// _updateData2ToTarget is what honours them), data exactly on targets (grid nodes / point targets), unique / moving
+// neighbourhood, nbsimu 1-2.  Oracle (property statement): every DEFINED (sample, variable) value is reproduced at the
+// coinciding target for every rank; an undefined one imposes nothing.
+VF_PART(simtub_hetero)
+{
+  defineDefaultSpace(ESpaceType::RN, 2);
+  // sample positions: all on nodes of the 4x4 grid and in the point-target list
+  const double sx[4] = {0., 2., 1., 3.}, sy[4] = {0., 1., 2., 3.};
+  const double val[3][4] = {{1.5, -0.5, 0.25, 2.}, {0.5, 0.75, -1.25, 3.}, {-2., 1.25, 0.125, -0.75}};
+  struct Blk { int n, nvar; bool quick; };
+  const Blk blocks[4] = {{3, 2, true}, {3, 3, true}, {4, 2, true}, {4, 3, false}};
+  for (int ib = 0; ib < 4; ib++)
+  {
+    const Blk B = blocks[ib];
+    if (!C.thorough() && !B.quick) continue;
+    Space sp;
+    sp.axis("pattern", 1 << (B.n * B.nvar)).axis("nugget", 2).axis("target", 2).axis("neigh", 2).axis("nbsimu", 2);
+    // case string = "<block>:<id>" ; for_each_case uses plain ids, so blocks are enumerated with an offset
+    uint64_t off = (uint64_t)ib << 32;
+    uint64_t nsp = sp.size();
+    C.ps().space += nsp;
+    auto one = [&](uint64_t id, const std::vector<int>& ix) {
+      int n = B.n, nvar = B.nvar, pat = ix[0], nbsimu = ix[4] + 1;
+      bool nug = ix[1] == 1, pt = ix[2] == 1;
+      std::string kase = std::to_string(off + id);
+      // model: LMC spherical (+ nugget on every variable)
+      Model* m;
+      if (nvar == 2)
+      {
+        m = Model::createFromParam(ECov::SPHERICAL, 3., 1., 1., VectorDouble(), {2., 1., 1., 1.5});
+        if (nug) m->addCovFromParam(ECov::NUGGET, 0., 1., 1., VectorDouble(), {0.5, 0.125, 0.125, 0.25});
+      }
+      else
+      {
+        m = Model::createFromParam(ECov::SPHERICAL, 3., 1., 1., VectorDouble(), {2., 1., 0.5, 1., 1.5, -0.25, 0.5, -0.25, 1.});
+        if (nug) m->addCovFromParam(ECov::NUGGET, 0., 1., 1., VectorDouble(), {0.5, 0.125, 0., 0.125, 0.25, 0.0625, 0., 0.0625, 0.375});
+      }
+      std::vector<double> x(sx, sx + n), y(sy, sy + n);
+      std::vector<std::vector<double>> z(nvar, std::vector<double>(n));
+      int ndef = 0, nundefEarlier = 0;
+      for (int v = 0; v < nvar; v++)
+        for (int k = 0; k < n; k++)
+        {
+          bool undef = (pat >> (v * n + k)) & 1;
+          z[v][k] = undef ? TEST : val[v][k];
+          if (!undef) ndef++;
+        }
+      // pattern exercising the mechanism: an earlier variable undefined where a later one is defined
+      for (int k = 0; k < n; k++) for (int v = 1; v < nvar; v++) if (!FFFF(z[v][k])) for (int u = 0; u < v; u++) if (FFFF(z[u][k])) nundefEarlier++;
+      Db* din = make_db_xz({x, y}, z);
+      Db* dout;
+      std::vector<double> tx, ty;
+      if (!pt) dout = DbGrid::create({4, 4});
+      else { point_targets(tx, ty); dout = make_db({tx, ty}, {"x1", "x2"}, {"x1", "x2"}); }
+      ANeigh* neigh = ix[3] == 0 ? (ANeigh*)NeighUnique::create() : (ANeigh*)NeighMoving::create(false, 3, 10.);
+      int nc0 = dout->getColumnNumber();
+      int err = simtub(din, dout, m, neigh, nbsimu, 12345, 6);
+      C.eval();
+      std::vector<std::vector<double>> R = result_cols(dout, nc0);
+      std::vector<double> ox, oy;
+      for (int i = 0; i < dout->getSampleNumber(); i++) { ox.push_back(dout->getCoordinate(i, 0)); oy.push_back(dout->getCoordinate(i, 1)); }
+      delete din; delete dout; delete m; delete neigh;
+      std::string pats;
+      for (int v = 0; v < nvar; v++) { pats += (v ? "|" : ""); for (int k = 0; k < n; k++) pats += FFFF(z[v][k]) ? "-" : "x"; }
+      std::string desc = std::string(pt ? "point" : "grid") + " targets, nvar=" + std::to_string(nvar) + ", " + std::to_string(n) + " samples on targets, defined(x)/undefined(-) per variable " + pats + ", model " +
+                         (nug ? "spherical LMC + nugget" : "spherical LMC") + ", " + (ix[3] ? "moving" : "unique") + " neighbourhood, nbsimu=" + std::to_string(nbsimu) + ", nbtuba=6, seed=12345";
+      if (ndef == 0)
+      {
+        // no datum at all: the library may refuse or run unconditionally; nothing to honour
+        C.skip(); C.outcome("no-defined-value");
+        return;
+      }
+      if (err != 0 || (int)R.size() != nvar * nbsimu)
+      {
+        C.outcome(std::string("simtub-error:") + (nug ? "nugget" : "no-nugget"));
+        C.violation("simtub:hetero:error", desc + ": conditional simtub failed (err=" + std::to_string(err) + ", " + std::to_string(R.size()) + " columns)", kase);
+        return;
+      }
+      int nbad = 0;
+      std::string first;
+      for (size_t t = 0; t < ox.size(); t++)
+        for (int k = 0; k < n; k++)
+        {
+          if (ox[t] != x[k] || oy[t] != y[k]) continue;
+          for (int v = 0; v < nvar; v++)
+          {
+            if (FFFF(z[v][k])) continue;  // an undefined value imposes nothing
+            for (int is = 0; is < nbsimu; is++)
+            {
+              double got = R[is + nbsimu * v][t];
+              if (!(std::fabs(got - z[v][k]) <= 1e-8 * 3.))
+              {
+                nbad++;
+                if (first.empty()) first = "sample " + std::to_string(k) + " at (" + f6(x[k]) + "," + f6(y[k]) + ") has z" + std::to_string(v + 1) + " = " + f6(z[v][k]) + " but the coinciding target " + std::to_string(t) + " holds " + fmt(got) + " in simulation " + std::to_string(is + 1);
+              }
+            }
+          }
+        }
+      if (nundefEarlier > 0 && nug) C.nontrivial(off + id);
+      C.outcome(std::string(nug ? "nugget" : "no-nugget") + (nundefEarlier ? ":earlier-variable-undefined" : ":other-pattern") + (nbad ? ":datum-NOT-honoured" : ":data-honoured"));
+      if (nbad) C.violation(std::string("simtub:hetero:") + (pt ? "point-target" : "grid-target"), desc + ": " + first + " (" + std::to_string(nbad) + " mismatches)", kase);
+      if (id % 4099 == 0) C.sample("{\"case\":" + kase + ",\"pattern\":" + jstr(pats) + ",\"nugget\":" + (nug ? "true" : "false") + ",\"target\":" + jstr(pt ? "points" : "grid") + ",\"mismatches\":" + std::to_string(nbad) + "}");
+    };
+    if (!C.only_case.empty())
+    {
+      uint64_t full = strtoull(C.only_case.c_str(), nullptr, 10);
+      if ((full >> 32) != (uint64_t)ib) continue;
+      uint64_t id = full & 0xffffffffULL;
+      if (id < nsp) { C.cur_case = C.only_case; one(id, sp.decode(id)); }
+      continue;
+    }
+    for (uint64_t id = (uint64_t)C.shard; id < nsp; id += (uint64_t)C.nshards)
+    {
+      if ((id & 63) < (uint64_t)C.nshards && C.expired()) break;
+      C.cur_case = std::to_string(off + id);
+      one(id, sp.decode(id));
+    }
+  }
 }
 
 // =========================================================================================================
